@@ -473,9 +473,11 @@ class RTDCBase(abc.ABC):
                             continue
                         if bn.is_available():
                             features += bn.features
-                    except OSError:
+                    except (OSError, ValueError,
+                            feat_basin.BasinNotAvailableError):
                         # The basin became unavailable after its
-                        # availability was verified (e.g. connection lost).
+                        # availability was verified (e.g. connection lost,
+                        # object removed from the server).
                         warnings.warn(
                             f"Could not determine features of basin "
                             f"'{bn.name}' in {self}:\n"
